@@ -32,8 +32,8 @@ def boxes_in(lo, hi):
 
 class Check(PropertyCheck):
     id = 'C19'
-    lean_targets = ['RegionsVerif.Props.C19']
-    namespaces = ['RegionsVerif.Props.C19']
+    lean_targets = ['RegionsVerif.Props.C19', 'RegionsVerif.Bridge.FormulasC19']
+    namespaces = ['RegionsVerif.Props.C19', 'RegionsVerif.Bridge.C19']
     rule = ('exhaustive small boxes (corners in a window, incl. empty) x pairs / sampled triples / image shapes '
             'incl. 0-sized; random corners up to +-1e9 and numpy int types; float rectangles on the 1/8 lattice '
             'and random; invalid constructor arguments. A case is non-trivial unless both boxes are empty '
@@ -42,6 +42,16 @@ class Check(PropertyCheck):
                    'Python ints are unbounded (modelled as Int)']
 
     # ---------------------------------------------------------------- generation
+    def translate(self):
+        # tie T: regenerate Gen/FormulasC19.lean from the current source (tools/py2lean.py)
+        import importlib.util, os
+        from .common import VERIF
+        spec = importlib.util.spec_from_file_location('py2lean', os.path.join(VERIF, 'tools', 'py2lean.py'))
+        mod = importlib.util.module_from_spec(spec)
+        spec.loader.exec_module(mod)
+        problems, _ = mod.main(['C19'])
+        return problems
+
     def generate(self, rng, tier):
         cases = []
         lo, hi = (-2, 2) if tier == 'quick' else (-3, 4)
